@@ -1,6 +1,9 @@
 // ---- ghost file system for single-file sync (C01): a path's content only. A model of tokio::fs, not of copia. ASSUMED (A).
 // Nothing here speaks about atomicity or durability (those are C08/C09's worlds); only WHICH BYTES are at WHICH PATH.
 pub struct SW { pub files: Map<PathV, Seq<u8>> }
+// domain clause: the block index of a signature is a u32, so a basis has fewer than 2^32 blocks - every file is below
+// 2 TiB (0xFFFF_FFFF blocks of the smallest legal block size, 512 bytes)
+pub open spec fn idx_domain(w: SW) -> bool { forall|p: PathV| w.files.contains_key(p) ==> (#[trigger] w.files[p]).len() < 0xFFFF_FFFF * 512 }
 pub uninterp spec fn aspr<P>(p: &P) -> PathV;         // AsRef<Path> view of a borrowed generic path argument
 // R5 shim for `p.as_ref()` on a generic P: AsRef<Path> (its body is that very call)
 #[verifier::external_body]
